@@ -166,8 +166,10 @@ class Sphere(Shape3D):
         # (among other sources).
         q = np.atleast_2d(q)
         form_factor = np.empty(q.shape[0], dtype=np.complex128)
+        # A wave vector counts as zero if it is negligible compared to the inverse
+        # radius (not in absolute terms).
         q_sqs = np.sum(q * q, axis=-1)
-        zero_q = np.isclose(q_sqs, 0)
+        zero_q = np.isclose(q_sqs * self.radius**2, 0)
         form_factor[zero_q] = self.volume
         # Two notes are in order for the formula below:
         #   - np.sinc(x) gives sin(pi*x)/(pi*x)
